@@ -291,3 +291,79 @@ func isBoolType(t types.Type) bool {
 	b, ok := t.Underlying().(*types.Basic)
 	return ok && b.Info()&types.IsBoolean != 0
 }
+
+// eqFacts: the equalities x == y that hold on entry to block b — tested directly by a dominating branch, or implied by
+// the outcome of a boolean helper of the module that a dominating branch tests (if !pooled(len(buf)) { return }: inside
+// pooled every return that can yield true has established length == chunkLen). The helper's parameters are replaced
+// by the call's arguments.
+func eqFacts(b *ssa.BasicBlock) [][2]ssa.Value {
+	var out [][2]ssa.Value
+	for _, g := range expandGuards(guardsOfRaw(b)) {
+		if op, x, y, ok := cmpFact(g); ok && op == token.EQL {
+			out = append(out, [2]ssa.Value{x, y})
+			continue
+		}
+		g = g.norm()
+		c, ok := g.Cond.(*ssa.Call)
+		if !ok || c.Call.IsInvoke() {
+			continue
+		}
+		h := c.Call.StaticCallee()
+		if h == nil || h.Blocks == nil || h.Pkg == nil || c.Parent() == nil || funcPkgPath(h) != funcPkgPath(c.Parent()) || len(c.Call.Args) != len(h.Params) {
+			continue
+		}
+		back := func(v ssa.Value) ssa.Value {
+			conv := false
+			w := v
+			for {
+				if cv, okc := w.(*ssa.Convert); okc {
+					w, conv = cv.X, true
+					continue
+				}
+				break
+			}
+			_ = conv
+			for i, pa := range h.Params {
+				if ssa.Value(pa) == w {
+					return c.Call.Args[i]
+				}
+			}
+			return v
+		}
+		var common map[[2]ssa.Value]bool
+		for _, ret := range returnsOf(h) {
+			res := retResults(ret)
+			if len(res) != 1 {
+				common = nil
+				break
+			}
+			gs := guardsOfRaw(ret.Block())
+			if bv, isb := constBool(res[0]); isb {
+				if bv != g.Pol {
+					continue
+				}
+			} else {
+				gs = append(gs, Guard{Cond: res[0], Pol: g.Pol})
+			}
+			here := map[[2]ssa.Value]bool{}
+			for _, hg := range expandGuards(gs) {
+				if op, x, y, ok := cmpFact(hg); ok && op == token.EQL {
+					here[[2]ssa.Value{back(x), back(y)}] = true
+				}
+			}
+			if common == nil {
+				common = here
+			} else {
+				for k := range common {
+					if !here[k] {
+						delete(common, k)
+					}
+				}
+			}
+		}
+		for k := range common {
+			out = append(out, k)
+		}
+	}
+	return out
+}
